@@ -6,25 +6,36 @@ EXTENDS FlashEnc, FlashEncCases
 CONSTANTS CellBytes,   \* bytes per cell
           Tails,       \* byte tails of the image length
           Subs,        \* byte offsets of the base inside its cell (multiples of 16)
-          Engines      \* subset of {"otfad", "bee", "iee"}
+          Engines,     \* subset of {"otfad", "bee", "iee", "ieectr"}   (iee = AES-XTS, ieectr = AES-CTR with address binding)
+          Wraps        \* ieectr: where the additive counter word reaches 2^32, in 16-byte blocks from the window origin (NoneAt = nowhere)
 
-InpOf(eng) == CASE eng = "otfad" -> "addr" [] eng = "bee" -> "shr4" [] OTHER -> "page"
-MkReg(eng, r) == [lo |-> r.lo, hi |-> r.hi, vld |-> r.fl # "inv", ade |-> r.fl = "on", chk |-> TRUE, inp |-> InpOf(eng)]
-MkCase(eng, rs, b, sub, lc, tail) ==
-  [eng |-> eng, C |-> CellBytes, unit |-> Unit, oh |-> 2049, ol |-> 4096,
-   regs |-> [i \in DOMAIN rs |-> MkReg(eng, rs[i])], nrec |-> Len(rs) + 1,
+NoneAt == 99999
+OH == 2049
+OL == 4096
+O4 == OH * 4096 + (OL \div 16)                                       \* origin >> 4
+IsIee(eng) == eng \in {"iee", "ieectr"}
+InpOf(eng) == CASE eng = "otfad" -> "addr" [] eng \in {"bee", "ieectr"} -> "shr4" [] OTHER -> "page"
+\* the initial counter word W with  W + O4 + d = 2^32,  as limbs: W = (2^32 - 1) - (O4 + d - 1)
+WordFor(d) == IF d = NoneAt THEN [wh |-> 0, wl |-> 0]
+              ELSE [wh |-> 65535 - ((O4 + d - 1) \div 65536), wl |-> 65535 - ((O4 + d - 1) % 65536)]
+MkReg(eng, r, d) == [lo |-> r.lo, hi |-> r.hi, vld |-> r.fl # "inv", ade |-> r.fl = "on", chk |-> TRUE, inp |-> InpOf(eng),
+                     wh |-> WordFor(d).wh, wl |-> WordFor(d).wl]
+MkCase(eng, rs, b, sub, lc, tail, d) ==
+  [eng |-> eng, C |-> CellBytes, unit |-> Unit, oh |-> OH, ol |-> OL,
+   regs |-> [i \in DOMAIN rs |-> MkReg(eng, rs[i], d)], nrec |-> Len(rs) + 1,
    base |-> b, sub |-> sub, len |-> lc * CellBytes + tail,
-   salign |-> IF eng = "iee" THEN Unit ELSE 1, rule |-> "all"]
+   salign |-> IF IsIee(eng) THEN Unit ELSE 1, rule |-> "all", wrapAt |-> d]
 \* engine-specific part of the quantifier: IEE data addresses are page aligned and its regions are never "not valid";
 \* a BEE FAC region is always on
 Admissible(eng, rs, b, sub) ==
-  /\ (eng = "iee" => b % Unit = 0 /\ sub = 0 /\ \A i \in DOMAIN rs : rs[i].fl # "inv")
+  /\ (IsIee(eng) => b % Unit = 0 /\ sub = 0 /\ \A i \in DOMAIN rs : rs[i].fl # "inv")
   /\ (eng = "bee" => \A i \in DOMAIN rs : rs[i].fl = "on")
 Fits(cs) == ImgHi(cs) <= NCells * CellBytes
 
-Init == /\ \E eng \in Engines, rs \in RegSeqs, b \in 0..(NCells - 1), sub \in Subs, lc \in 0..NCells, tail \in Tails :
+Init == /\ \E eng \in Engines, rs \in RegSeqs, b \in 0..(NCells - 1), sub \in Subs, lc \in 0..NCells, tail \in Tails, d \in Wraps \cup {NoneAt} :
              /\ Admissible(eng, rs, b, sub)
-             /\ c = MkCase(eng, rs, b, sub, lc, tail)
+             /\ (eng # "ieectr" => d = NoneAt)
+             /\ c = MkCase(eng, rs, b, sub, lc, tail, d)
         /\ Fits(c)
         /\ phase = "load" /\ loaded = 0 /\ pc = 0
 
@@ -37,12 +48,13 @@ DoLoadBlob == loaded + 1 <= Len(c.regs) /\ \E o \in {ExpBlob(loaded + 1)} : Load
 DoLoadFiller == \E o \in {[j |-> loaded + 1, vld |-> FALSE]} : LoadFiller(o)
 DoEndLoad == \E o \in {[n |-> c.nrec]} : EndLoad(o)
 DoFetchDecrypt == \E o \in {ExpFetch(pc)} : FetchDecrypt(o)
+DoFetchUnsettled == \E o \in {[ExpFetch(pc) EXCEPT !.ok = FALSE]} : FetchUnsettled(o)   \* `ok` is not demanded there
 DoFetchBypass == \E o \in {ExpFetch(pc)} : FetchBypass(o)
 DoFetchMiss == \E o \in {ExpFetch(pc)} : FetchMiss(o)
 DoEndFetch == \E o \in {[outLen |-> c.len]} : EndFetch(o)
 DoLocal == \E o \in {[s |-> NextCut(c, pc), ok |-> TRUE]} : Local(o)
 DoEndLocal == \E o \in {[n |-> Cardinality(Cuts(c))]} : EndLocal(o)
-Next == DoLoadBlob \/ DoLoadFiller \/ DoEndLoad \/ DoFetchDecrypt \/ DoFetchBypass \/ DoFetchMiss \/ DoEndFetch \/ DoLocal \/ DoEndLocal
+Next == DoLoadBlob \/ DoLoadFiller \/ DoEndLoad \/ DoFetchDecrypt \/ DoFetchUnsettled \/ DoFetchBypass \/ DoFetchMiss \/ DoEndFetch \/ DoLocal \/ DoEndLocal
 Spec == Init /\ [][Next]_vars
 
 \* ---------------------------------------------------------------- lemmas (R-spec)
@@ -73,6 +85,28 @@ ShrOK == AtStart => \A k \in ImgCells(c) : LET off == CellLo(c, k)
 \* the run ends, having fetched every cell and handled every cut
 Finished == phase = "done" => loaded = c.nrec
 CutsInside == AtStart => \A s \in Cuts(c) : s \in ImgCells(c) /\ s * c.C > ImgLo(c) /\ s * c.C < ImgHi(c) /\ s % c.salign = 0
+
+\* ---------------------------------------------------------------- additive counter (IEE AES-CTR): the documented range and the cuts
+\* the limb arithmetic of WrapBlk gives back the block the case was built for:  W + (origin >> 4) + WrapBlk = 2^32
+WrapRecomputed == AtStart => \A j \in RegIdx(c) :
+                    /\ WrapBlk(c, j) = (IF c.wrapAt = NoneAt \/ c.regs[j].inp # "shr4" THEN NoWrap ELSE c.wrapAt)
+                    /\ (WrapBlk(c, j) # NoWrap =>
+                          LET x == O4 + WrapBlk(c, j) IN
+                          /\ (c.regs[j].wl + (x % 65536)) % 65536 = 0
+                          /\ c.regs[j].wh + (x \div 65536) + (IF x % 65536 = 0 THEN 0 ELSE 1) = 65536)
+\* a cell is settled iff EVERY block of it that holds image bytes stays below the wrap; inside a region the settled cells are a prefix
+SettledExact == AtStart => \A k \in ImgCells(c) : Dec(c, k) =>
+                  /\ (Settled(c, k) <=> \A b \in (CellLo(c, k) \div 16)..LastBlk(c, k) : b < WrapBlk(c, Owner(c, k)))
+                  /\ \A k2 \in ImgCells(c) : (k2 < k /\ Owner(c, k2) = Owner(c, k) /\ Settled(c, k)) => Settled(c, k2)
+\* without a wrap in reach everything the property describes is asserted (the new clause takes nothing away from the old domain)
+NoWrapAllAsserted == (AtStart /\ c.wrapAt = NoneAt) => \A k \in ImgCells(c) : Asserted(c, k)
+\* the locality clause does not look at counters: the admissible cuts of a case with a wrap are those of the same case without
+CutsIgnoreCounters == AtStart => Cuts(c) = Cuts([c EXCEPT !.regs = [j \in DOMAIN c.regs |-> [c.regs[j] EXCEPT !.wh = 0, !.wl = 0]]])
+\* what the generator relies on: when the wrap falls inside the image and the image goes on beyond the engine unit of the wrap,
+\* the end of that unit is an admissible cut - a piece that starts BEHIND the wrap point exists
+CutBehindWrap == (AtStart /\ c.wrapAt # NoneAt) =>
+                   LET uEnd == ((c.wrapAt * 16) \div (c.unit * c.C) + 1) * (c.unit * c.C) IN
+                   (c.wrapAt * 16 >= ImgLo(c) /\ uEnd < ImgHi(c)) => (uEnd \div c.C) \in Cuts(c) /\ (uEnd \div 16) > c.wrapAt
 
 \* ---------------------------------------------------------------- I-spec: SPSDK's walk (as built), sub = 0 only
 \* chunks of one unit are taken FROM THE BASE; a chunk is encrypted by the context that contains its first address and
